@@ -242,7 +242,7 @@ func (t etemplate) describe() string {
 func genETemplate(r *fw.Rand, c cfg, df envs.DateFormat, catalogue []exprSpec) etemplate {
 	tg := &treeGen{r: r, resolver: c.res != nil, redact: c.redact, dateFmt: df, value: benignValue}
 	n := r.Weighted([]int{0, 20, 30, 25, 15, 10}) // 1..5 conditions
-	nsites := r.Weighted([]int{0, 60, 28, 12})   // 1..3 sites
+	nsites := r.Weighted([]int{0, 60, 28, 12})    // 1..3 sites
 	if nsites > n {
 		nsites = n
 	}
